@@ -427,12 +427,45 @@ class SInt(object):
         raise PathAbort('true division by a symbolic integer')
 
     def __pow__(self, o, mod=None):
-        if mod is not None or not isinstance(o, _int) or o < 0 or o > 8:
-            raise PathAbort('pow')
-        r = 1
-        for _ in range(o):
-            r = r * self
-        return r
+        if mod is None and isinstance(o, _int) and 0 <= o <= 8:
+            r = 1
+            for _ in range(o):
+                r = r * self
+            return r
+        # general case: square-and-multiply over the exponent's bits.  The W-bit term stays congruent to the true power modulo
+        # 2^W (ring operations only); the true magnitude is not tracked (interval 'unknown'), so only operations that are
+        # closed under the congruence (& mask, % 2^k, + - *) may follow - anything else makes the path inconclusive.
+        if isinstance(o, SInt):
+            if not _fits(o.lo, o.hi):
+                raise PathAbort('pow: exponent of unknown magnitude')
+            if o.lo < 0:
+                if Ctx.cur.branch(o.t < bvv(0)):
+                    raise PathAbort('negative exponent (float result)')
+            bits = max(o.hi, 0).bit_length()
+            if bits > 10:
+                # z3 flattens nested products: b^(2^i) becomes a product of 2^i factors - out of reach beyond ~10 exponent bits
+                raise PathAbort('pow: symbolic exponent wider than 10 bits')
+            r, b = bvv(1), self.t
+            for i in range(bits):
+                r = z3.If(z3.Extract(i, i, o.t) == z3.BitVecVal(1, 1), r * b, r)
+                if i + 1 < bits:
+                    b = b * b
+        elif isinstance(o, _int) and not isinstance(o, bool) and o >= 0:
+            if o.bit_length() > 10:
+                raise PathAbort('pow: exponent too large')
+            r, b = bvv(1), self.t
+            for i in range(o.bit_length()):
+                if (o >> i) & 1:
+                    r = r * b
+                if i + 1 < o.bit_length():
+                    b = b * b
+        else:
+            return NotImplemented
+        if mod is not None:
+            if not isinstance(mod, _int) or mod <= 0 or (mod & (mod - 1)) or mod.bit_length() > Ctx.W - 1:
+                raise PathAbort('pow: modulus is not a power of two below 2^(W-1)')
+            return mk(r & bvv(mod - 1), 0, mod - 1)
+        return mk(r)
 
     def __rpow__(self, o):
         if not isinstance(o, _int) or o <= 0 or (o & (o - 1)):
